@@ -93,10 +93,10 @@ type absErr struct {
 	data string
 }
 type absMsg struct {
-	id, method     string
-	pmode, params  string // mode "r", "g", "v<k>_"; params "" = none
-	rmode, result  string
-	err            *absErr
+	id, method    string
+	pmode, params string // mode "r", "g", "v<k>_"; params "" = none
+	rmode, result string
+	err           *absErr
 }
 
 var valueCorpus = []any{
